@@ -122,14 +122,14 @@ ADDENDA = {
     "C04": "Also: do_fix on the same bins with the rows of target, antitarget and reference reversed / rotated / swapped against the call on sorted rows, corrections on and off, distinct and tied covariates (same bins, genomic order, same log2 and weight: found D17, fixed); a chrX target bin in the arithmetic harness (centring is over the autosomes); matching on the same start/end tiling on two chromosomes (reference chromosomes in the other order; the sample's second chromosome absent from the reference must be refused).",
     "C05": "Also: do_reference with the sexes inferred (guess_xx's answer solver-chosen per file: antitarget call, else target call), null-coverage antitarget bins, target files listed in another order, and summarize_info with the real biweight estimators on two structured families (far outlier discarded low and high; >= 2 normals that agree after centring reproduce their level with spread 0); a panel with chrY but no chrX bins; stated sexes; combine_probes with the edge correction on for normals that differ only in depth.",
     "C08": "Name pool includes upper/mixed-case chr prefixes.",
-    "C09": "Bins as long as a chromosome (depth below 2^-20 reachable), bins past a symbolic contig end, a bin name containing a blank; interval_coverages_count with 1 vs N workers over an in-process stand-in pool; ensure_bam_index over a dictionary file system with symbolic modification times.",
+    "C09": "Bins as long as a chromosome (depth below 2^-20 reachable), bins past a symbolic contig end, a bin name containing a blank; interval_coverages_count with 1 vs N workers over an in-process stand-in pool; ensure_bam_index over a dictionary file system with symbolic modification times. Reads carry 0-2 soft-clipped bases at either end and a hole of 0-2 reference bases before the last aligned base (query_length, reference_end, reference_length as pysam reports them).",
     "C10": "Also do_fix on caller tables that are not in genomic order, do_segmentation with 1 vs N workers over an in-process stand-in pool, by_arm with thresholds small enough to look for a centromere, export_vcf with its bin table; generators the code creates for itself are re-set per path execution and advance within it.",
     "C12": "Also a panel targeting a canonical and a non-canonical contig with another non-canonical contig untargeted, and natural chromosome order (chr2 before chr10) of split target bins.",
     "C14": "Allele-specific copy numbers are part of the level of every filter (doc/pipeline.rst), with ampdel/ci/sem configurations on already-called tables.",
     "C15": "Also a depth column (depth 0 = null coverage), an X/Y-only table with a PAR genome, and -1 on all of Y for a female reference.",
     "C16": "Also the sex-adjustment options on chrX genes, zero-depth bins and zero-weight bins (a gene's total weight positive).",
-    "C17": "Also bintest with bins on two chromosomes and the segment table in the other order, the Background alias, alpha exactly at an adjusted p (taken from a first run), a row-subset segment table, and bivar with the real biweight_midvariance on the far-outlier family.",
-    "C18": "Also: frequencies are never missing (sample and paired normal), INFO/DP as the last resort for the depth, the TumorBoost tie t = n = 0, one-chromosome segment tables against two-chromosome variants, and the BAF of segments merged by do_call(filters=[ci|sem]).",
+    "C17": "Also bintest with bins on two chromosomes and the segment table in the other order, the Background alias, alpha exactly at an adjusted p (taken from a first run), a row-subset segment table, and bivar with the real biweight_midvariance on the far-outlier family. do_bintest is called twice on the same tables (the bin table still holds its own log2; same bins, p and residuals).",
+    "C18": "Also: frequencies are never missing (sample and paired normal), INFO/DP as the last resort for the depth, the TumorBoost tie t = n = 0, one-chromosome segment tables against two-chromosome variants, and the BAF of segments merged by do_call(filters=[ci|sem]). The FORMAT keys may differ per record (a record with a genotype only next to one with DP/AD).",
     "C19": "Also exactly one finite value among NaNs for every on_array estimator. Float64-only behaviour can surface only through the replay phase (a real run that fails a discharged claim is reported as a violation): sampling, not a solver verdict.",
     "C20": "Also seg export where one sample has no probes column.",
 }
